@@ -240,6 +240,13 @@ class Gen:
             self.do("@AddFV %d %d" % (a, b))       # 2-gon
         if r.chance(1, 4):
             self.do("@AddFV %d" % r.pick(lv))       # loop
+        if r.chance(1, 3):
+            # a self-loop edge on the LAST vertex (the one fast deletion relocates) and a face running through the loop
+            v = self.st().nv - 1
+            self.do("@AddE %d %d 1" % (v, v))
+            if len(lv) >= 2 and r.chance(1, 2):
+                w = r.pick([x for x in lv if x != v] or lv)
+                self.do("@AddFV %d %d %d" % (v, v, w))
 
     def doublet(self):
         """two cells sharing TWO faces (legal in polyhedral meshes), with a third cell on the face in between in
@@ -347,6 +354,8 @@ class Gen:
             if len(f) >= 2: a, b = r.pick(f) // 2, r.pick(f) // 2
         if k == "V" and s.live_e() and r.chance(1, 2):
             a, b = s.E[r.pick(s.live_e())]
+            if a == b:                                    # a self-loop: exchange its vertex with another one (both halfedges leave it)
+                b = self.victim(l)
         self.do("@Swap%s %d %d" % (k, a, b))
 
     def readd(self):
